@@ -643,7 +643,8 @@ class DictForm:
                 n = gen.ncells(desc["space"])
                 for c in ("w", "h", "d"):
                     k = key_of(d, "grid", c) or c
-                    for v in ([0, -1, -r.randint(2, 9)] if thorough else [0, -r.randint(1, 9)]):
+                    # (also numbers whose documented int() cast is not positive: such a grid would have no cell)
+                    for v in ([0, -1, -r.randint(2, 9), 0.0, 0.5, 0.999, -0.5, 1e-9] if thorough else [0, -r.randint(1, 9), r.choice([0.0, 0.5, 0.999, -0.5, 1e-9])]):
                         self.apply(4, "grid-size/non-positive-accepted", "grid.%s" % c, path,
                                    lambda t, k=k, v=v: t.__setitem__(k, v), "%r = %r" % (k, v))
                 k = key_of(d, "grid", "cell_env") or "cell_env"
@@ -930,7 +931,9 @@ def class45_objects(cx, st, r, desc, P, O, thorough):
         okg, _ = cx.twin(4, lambda: st.RDGridSpace(**gk), "RDGridSpace(valid)")
         if okg:
             for c in ("w", "h", "d"):
-                for v in ([0, -1, -r.randint(2, 9)] if thorough else [0, -r.randint(1, 9)]):
+                import numpy as _np
+                for v in ([0, -1, -r.randint(2, 9), 0.0, 0.5, 0.999, -0.5, 1e-9, _np.float32(0.75), _np.int64(0)] if thorough
+                          else [0, -r.randint(1, 9), r.choice([0.0, 0.5, 0.999, -0.5, 1e-9, _np.float32(0.75), _np.int64(0)])]):
                     kw = dict(gk, **{c: v})
                     kw["cell_env"] = 0
                     cx.judge(4, "grid-size/non-positive-accepted", "RDGridSpace(%s=)" % c, "RDGridSpace(%s=%r, ...)" % (c, v),
@@ -1445,7 +1448,7 @@ def replay(path):
 
 
 NOT_JUDGED = [
-    "non-integral floats as positions / species indices / grid sizes (the code documents int(...) casts)",
+    "non-integral floats as positions / species indices / grid sizes (the code documents int(...) casts) - except grid sizes whose cast is not positive (0.5, -0.5 ...): a grid without cells, judged",
     "booleans as indices; None as a species (type error, not an 'unknown species')",
     "numpy integers inside a coarse-graining map (the valid twin is refused; floats, integral or not, ARE judged: the documented rule is 'only integers')",
     "unknown environment label inside a per-environment dictionary (density / D / k / chstt): silently unused, not in the statement",
